@@ -60,9 +60,14 @@ mod absolute_to_relative_time {
     {
         let deadline = Duration::deserialize(deserializer)?;
         #[cfg(tarpc_verif)]
-        return Ok(crate::verif_hooks::now() + deadline);
-        #[cfg_attr(tarpc_verif, allow(unreachable_code))]
-        Ok(Instant::now() + deadline)
+        let now = crate::verif_hooks::now();
+        #[cfg(not(tarpc_verif))]
+        let now = Instant::now();
+        // The peer chooses the duration, and not every duration can be added to an Instant.
+        // Treat an unrepresentable deadline as one that is simply very far away.
+        Ok(now
+            .checked_add(deadline)
+            .unwrap_or_else(|| now + Duration::from_secs(60 * 60 * 24 * 365 * 30)))
     }
 
     #[cfg(test)]
